@@ -196,10 +196,19 @@ pub fn wrong_impl(raw: &RawAttribute) -> Value {
 }
 
 fn parse_json(b: &[u8]) -> Value {
-    guard(|| match Message::from_bytes(b) {
+    let mut main = guard(|| match Message::from_bytes(b) {
         Ok(_) => json!({"ok": true}),
         Err(e) => perr(&e),
-    })
+    });
+    // the other public entry point must give the same answer; reported only when it does not
+    let alt = guard(|| match Message::try_from(b) {
+        Ok(_) => json!({"ok": true}),
+        Err(e) => perr(&e),
+    });
+    if alt != main && main.is_object() {
+        main["alt"] = alt;
+    }
+    main
 }
 
 fn header_json(b: &[u8]) -> Value {
